@@ -4,7 +4,6 @@ import math
 
 import torch
 from torch.autograd import Function
-from torch.distributions import Normal
 
 
 class LogNormalCDF(Function):
@@ -60,7 +59,9 @@ class LogNormalCDF(Function):
 
         # Three cases to handle: An entry of z is near zero, an entry of z is small, or an entry of z neither of these.
         z_near_zero = z.pow(2).lt(0.04)
-        z_is_small = z.lt(-1)
+        # The rational approximation below is only accurate to rounding for z < -8 sqrt(2) (GPML's logphi.m uses it there);
+        # in between, erfc evaluates the tail of the CDF without the cancellation of 1 + erf
+        z_is_small = z.lt(-11.3137)
         z_is_ordinary = ~(z_near_zero | z_is_small)
 
         # Case 1: Entries of z that are near zero
@@ -92,7 +93,9 @@ class LogNormalCDF(Function):
             ctx.denominator = denominator
             ctx.numerator = numerator
 
-        log_phi_z.masked_scatter_(z_is_ordinary, torch.log(Normal(0.0, 1.0).cdf(z.masked_select(z_is_ordinary))))
+        log_phi_z.masked_scatter_(
+            z_is_ordinary, torch.log(torch.special.erfc(z.masked_select(z_is_ordinary).div(-math.sqrt(2))).div(2))
+        )
 
         ctx.save_for_backward(z, log_phi_z)
         return log_phi_z
@@ -102,7 +105,7 @@ class LogNormalCDF(Function):
         z, log_phi_z = ctx.saved_tensors
         log_phi_z_grad = torch.zeros_like(z)
 
-        z_is_small = z.lt(-1)
+        z_is_small = z.lt(-11.3137)
         z_is_not_small = ~z_is_small
 
         if z_is_small.sum() > 0:
